@@ -78,6 +78,14 @@ Theorem C04b_gcm_decrypt_stream_eq_oneshot :
 Proof. exact gcm_stream_eq_oneshot. Qed.
 Print Assumptions C04b_gcm_decrypt_stream_eq_oneshot.
 
+(* the one-shot function as coded (byte-carry counter, GHASH loops, J0) = SP 800-38D section 7 *)
+Theorem C04b_gcm_eq_sp800_38d :
+  forall E, (forall x, length (E x) = 16%nat) ->
+  forall chk iv aad p t r, bytes_ok iv = true ->
+  gcm_encrypt E chk iv aad p t = Ok r -> r = gcm_spec_encrypt E iv aad p t.
+Proof. exact gcm_eq_sp800_38d. Qed.
+Print Assumptions C04b_gcm_eq_sp800_38d.
+
 (* encrypt side: init / update* / finish under every chunking = the one-shot function *)
 Theorem C04b_gcm_encrypt_stream_eq_oneshot :
   forall E iv aad taglen, gcm_iv_ok (length iv) && gcm_tag_ok taglen = true ->
